@@ -21,7 +21,6 @@ tie      : translator harness/c15_tables.py  ->  coq/C15/gen/Dispatch.v  (tables
 """
 import functools
 import importlib
-import itertools
 import json
 import math
 import os
@@ -352,7 +351,9 @@ def run_call(lib, real, case):
         f = BINOPS[call[6:]][1]
     else:
         f = resolve_torch(call)
+    lib.tf_log = []
     d, r = lib.observe(lambda: to_plain(f(*objs, **kw), lib.root), objs)
+    handler_reached = bool(getattr(lib, "tf_log", None))
     dens = [real.dense(a, dt) for a in case["args"]]
     try:
         with warnings.catch_warnings():
@@ -371,7 +372,7 @@ def run_call(lib, real, case):
     except Exception as ex:              # noqa
         orc = ("err", ex)
     kinds = [kind_of(a, o) for a, o in zip(case["args"], objs)]
-    return {"kinds": kinds, "disp": d, "res": r, "oracle": orc, "objs": objs}
+    return {"kinds": kinds, "disp": d, "res": r, "oracle": orc, "objs": objs, "handler_reached": handler_reached}
 
 
 def method_call(lib, out, case):
@@ -379,7 +380,7 @@ def method_call(lib, out, case):
     d = out["disp"]
     if d[0] != "call":
         return None
-    K, nm, perm, kws = d[1], d[2], d[3], d[4]
+    nm, perm = d[2], d[3]
     if -1 in perm:
         return None
     objs = [lib_obj for lib_obj in out["objs"]]
@@ -397,6 +398,55 @@ def method_call(lib, out, case):
     except Exception as ex:                         # noqa
         r = ("err", ex)
     return r
+
+
+DUNDER = {"add": "__add__", "sub": "__sub__", "mul": "__mul__", "div": "__truediv__", "matmul": "__matmul__"}
+RDUNDER = {"add": "__radd__", "sub": "__rsub__", "mul": "__rmul__", "div": "__rtruediv__", "matmul": "__rmatmul__"}
+FUNC_METHOD = {"svd": "_torch_linalg_svd"}        # every other torch function: the method of the same name
+
+
+def expected_method(case, kinds):
+    """hand table (independent of the registration tables and of what the dispatcher did): the method the property
+    means by `the corresponding method`, and which argument is self.  None: no such method (isclose / div reflected)."""
+    call = case["call"]
+    base = call.replace("binop:", "").split(".")[-1]
+    base = {"+": "add", "-": "sub", "*": "mul", "/": "div", "@": "matmul"}.get(base, base)
+    first = kinds[0][0] == "op"
+    if call.startswith("binop:"):
+        return ((DUNDER if first else RDUNDER).get(base), 0 if first else 1)
+    if first:
+        return (FUNC_METHOD.get(base, base), 0)
+    return (RDUNDER.get(base) if base in ("add", "sub", "mul", "matmul") else None, 1)
+
+
+def expected_method_call(lib, out, case):
+    name, si = expected_method(case, out["kinds"])
+    kw = dict(case.get("kw") or {})
+    if name is None or (kw and si == 1):
+        return None                       # reflected dunders take no keyword
+    objs = out["objs"]
+    self_ = objs[si]
+    rest = [o for i, o in enumerate(objs) if i != si]
+    if not hasattr(self_, name):
+        return None
+    try:
+        with warnings.catch_warnings():
+            warnings.simplefilter("ignore")
+            saved, lib.depth = lib.depth, 1
+            try:
+                return ("ok", to_plain(getattr(self_, name)(*rest, **kw), lib.root))
+            finally:
+                lib.depth = saved
+    except Exception as ex:               # noqa
+        return ("err", ex)
+
+
+def same_outcome(a, b, tol=TOL):
+    if a[0] != b[0]:
+        return False
+    if a[0] == "err":
+        return exn_name(a[1]) == exn_name(b[1])
+    return same_value(a[1], b[1], tol)
 
 
 # ------------------------------------------------------------------------------------------ value cases -> Coq
@@ -523,6 +573,8 @@ def other_operands(rng, e, dn):
         "Tr": a_t(rt(rng, b + [n, 2])),                                    # right-hand sides
         "Trv": a_t(rt(rng, [n])),
         "Trb": a_t(rt(rng, ([2] + shp[:-2] if not b else []) + [n, 1])),
+        "Trs": a_t(rt(rng, b + [n, n])),                                   # square right / left operands
+        "Tls": a_t(rt(rng, b + [m, m])),
         "Tl": a_t(rt(rng, b + [2, m])),                                    # left-hand sides
         "Tlv": a_t(rt(rng, [m])),
         "Tlb": a_t(rt(rng, ([2] + shp[:-2] if not b else []) + [1, m])),
@@ -589,6 +641,7 @@ def value_cases(ctx, rng, lib, insts):
                 add("torch.div", [me, o["Tdiv"]]); add("torch.div", [me, o["Sdiv"]])
             if "torch.matmul" in first:
                 add("torch.matmul", [me, o["Tr"]]); add("torch.matmul", [me, o["Trv"]]); add("torch.matmul", [me, o["Trb"]])
+                add("torch.matmul", [me, o["Trs"]])
                 add("torch.matmul", [me, oth_mm])
             if "torch.isclose" in first:
                 near = a_t(ob.from_torch(dn + torch.tensor(rt(rng, shp, choices=[0, 0, 1, -1, 2])["data"], dtype=torch.float64).reshape(shp)))
@@ -607,7 +660,7 @@ def value_cases(ctx, rng, lib, insts):
                     if not meth:
                         add(f, [o["S"], me])
                 elif base == "matmul":
-                    add(f, [o["Tl"], me]); add(f, [o["Tlv"], me]); add(f, [o["Tlb"], me])
+                    add(f, [o["Tl"], me]); add(f, [o["Tlv"], me]); add(f, [o["Tlb"], me]); add(f, [o["Tls"], me])
                 elif base == "isclose":
                     near = a_t(ob.from_torch(dn + torch.tensor(rt(rng, shp, choices=[0, 0, 1, -1, 2])["data"], dtype=torch.float64).reshape(shp)))
                     add(f, [near, me]); add(f, [near, me], tolkw)
@@ -621,6 +674,7 @@ def value_cases(ctx, rng, lib, insts):
             add("binop:/", [me, o["Tdiv"]]); add("binop:/", [me, o["Sdiv"]])
             add("binop:/", [o["Tdiv"], me]); add("binop:/", [o["Sdiv"], me])
             add("binop:@", [me, o["Tr"]]); add("binop:@", [me, o["Trv"]]); add("binop:@", [o["Tl"], me]); add("binop:@", [o["Tlv"], me])
+            add("binop:@", [me, o["Trs"]]); add("binop:@", [o["Tls"], me])
             add("binop:@", [me, oth_mm]); add("binop:@", [oth_lm, me])
     return cases
 
@@ -668,7 +722,6 @@ def ref_expr(rng, cname, batch, m, psd):
     if cname == "RootLinearOperator":
         return g("Root", batch=batch, m=m, psd=psd)
     if cname == "KroneckerProductLinearOperator":
-        k = 2 if m <= 4 else 2
         return {"cls": "Kron", "ops": [g("Dense", batch=batch, m=2, psd=psd), g("Dense", batch=batch, m=max(1, m // 2), psd=psd)]}
     if cname == "SumLinearOperator":
         return {"cls": "Sum", "ops": [g("Dense", batch=batch, m=m, psd=psd), g("Dense", batch=batch, m=m, psd=psd)]}
@@ -768,6 +821,19 @@ def function_cases(ctx, rng, lib, insts):
         dn = ob.dense(e)
         if dn.dim() > 2 and cname == "DenseLinearOperator":
             add("torch.prod", e, "float64", [a_i(0)], fargs=[("i", 0)], l2=True)
+    # registrations the property does not name (none on the pinned tree): whatever they are mapped to must still mean
+    # torch.f on the dense matrix
+    extra_first = [f for f in lib.meta["first"] if f not in REQUIRED_FIRST]
+    extra_second = [f for f in lib.meta["second"] if f not in REQUIRED_SECOND and f not in ("torch.isclose",)]
+    if extra_first or extra_second:
+        for cname, e in ref_instances(ctx, rng, lib)[:12]:
+            dn = ob.dense(e)
+            tsame = a_t(rt(rng, list(dn.shape)))
+            for f in extra_first:
+                add(f, e, "float64", l2=True)
+                add(f, e, "float64", [tsame], l2=True)
+            for f in extra_second:
+                cases.append({"call": f, "args": [tsame, a_op(e)], "kw": {}, "dtype": "float64", "fargs": None, "l2": True, "cmp": "direct"})
     for cname, e in psd_instances(ctx, rng, lib):
         dn = ob.dense(e)
         shp = list(dn.shape)
@@ -823,8 +889,9 @@ def check_function_case(lib, real, case):
     mres = method_call(lib, out, case)
     out["method"] = mres
     fail = None
-    d = out["disp"]
     if mres is None:
+        if res[0] == "err" and not out.get("handler_reached"):
+            return out, None          # rejected by torch's own argument parser: the library was never consulted
         fail = "no-method-reached"
     elif mres[0] != res[0]:
         fail = "differs-from-method"
@@ -833,8 +900,12 @@ def check_function_case(lib, real, case):
             fail = "differs-from-method"
     elif not same_value(res[1], mres[1], 0.0 if case["cmp"] == "direct" else 1e-12):
         fail = "differs-from-method"
+    if fail is None and out["kinds"][0][0] == "op":
+        eres = expected_method_call(lib, out, case)
+        out["expected_method"] = eres
+        if eres is not None and not same_outcome(res, eres, 0.0 if case["cmp"] == "direct" else 1e-12):
+            fail = "differs-from-method"
     if fail is None and case["l2"]:
-        stub = d[0] == "call" and dict(map(tuple, lib.meta["defines"].get(d[1], []))).get(d[2]) == "MStub"
         if orc[0] == "ok":
             if res[0] == "err":
                 # NotImplementedError is the library's documented answer for a registered function a class does not
@@ -844,7 +915,7 @@ def check_function_case(lib, real, case):
             else:
                 dt = DTYPES[case.get("dtype", "float64")]
                 try:
-                    okv = l2_compare(case, res[1], orc[1], real.dense(case["args"][0], dt))
+                    okv = l2_compare(case, res[1], orc[1], real.dense(op_arg(case), dt))
                 except Exception:       # noqa
                     okv = False
                 if not okv:
@@ -860,7 +931,7 @@ def fkey(case, out, fail):
     kw = sorted((case.get("kw") or {}).keys())
     f = case["call"]
     form = "default" if (len(case["args"]) == 1 and not kw) else ("kw:" + ",".join(kw) if kw else "positional")
-    k = {"call": f, "sem": f.split(".")[-1], "class": kinds[0][1], "form": form, "method": d[2] if d[0] == "call" else None,
+    k = {"call": f, "sem": f.split(".")[-1], "class": next(x[1] for x in kinds if x[0] == "op"), "form": form, "method": d[2] if d[0] == "call" else None,
          "layer": "method" if fail == "differs-from-method" else "dense", "fail": fail, "route": "first", "other": "none", "kw": form}
     batch = len(real_shape(case)) > 2
     if k["sem"] == "diagonal" and form == "default" and batch and fail in ("value", "raises:RuntimeError"):
@@ -872,8 +943,12 @@ def fkey(case, out, fail):
     return k
 
 
+def op_arg(case):
+    return next(a for a in case["args"] if a["k"] == "op")
+
+
 def real_shape(case):
-    return list(ob.dense(case["args"][0]["e"]).shape)
+    return list(ob.dense(op_arg(case)["e"]).shape)
 
 
 def plain_list(v):
@@ -905,7 +980,7 @@ def farg_lit(a):
 
 def fcase_lit(case, out, real):
     dt = DTYPES[case.get("dtype", "float64")]
-    x = torch_lit(real.dense(case["args"][0], dt))
+    x = torch_lit(real.dense(op_arg(case), dt))
     fa = case["fargs"]
     # fargs None: the dense meaning is not modelled in Coq for this call form -> use a tag the model does not know
     args = "[%s]" % "; ".join(farg_lit(a) for a in fa) if fa is not None else "[FInts []; FInts []]"
@@ -1167,6 +1242,11 @@ def check_value_case(ctx, lib, real, case):
     if fail is None and mres is not None:
         if mres[0] != res[0] or (res[0] == "ok" and not same_value(res[1], mres[1])):
             fail = "differs-from-method"
+    if fail is None:
+        eres = expected_method_call(lib, out, case)
+        out["expected_method"] = eres
+        if eres is not None and not same_outcome(res, eres):
+            fail = "differs-from-expected-method"
     return out, fail
 
 
@@ -1215,7 +1295,6 @@ def search_impl(ctx, meta, rng):
     class C:            # a thorough-width context for the generators
         quick = False
         seed = ctx.seed
-    before = ctx.violations + len(ctx.known_hit)
     stats = correspondence(ctx, meta, rng, coq=False, width=C)
     return stats.get("reported", 0)
 
@@ -1276,7 +1355,6 @@ def correspondence(ctx, meta, rng, coq=True, width=None):
         ucs = []
         unreached = []
         ufuncs = unregistered_cases(w, lib)
-        user_cls = ob.user_minimal_class()
         probes = [("DenseLinearOperator", lambda: ob.build(ob.gen(rng, "Dense", m=3))),
                   ("DiagLinearOperator", lambda: ob.build(ob.gen(rng, "Diag", m=3)))]
         if not getattr(w, "quick", True):
@@ -1308,7 +1386,6 @@ def correspondence(ctx, meta, rng, coq=True, width=None):
                         reported += bool(ctx.violation(
                             {"kind": "unregistered-function-not-rejected", "function": nm, "class": pc, "operator_second": second,
                              "observed": res_repr(res)}, key={"call": nm, "fail": "unregistered-not-rejected", "class": pc}))
-        uninstall_tf_probe(lib)
         tb["unregistered_s"] = round(time.time() - t1, 1)
         t1 = time.time()
         # ---- V: values
@@ -1354,6 +1431,8 @@ def correspondence(ctx, meta, rng, coq=True, width=None):
         lib.uninstall()
     # report direct-predicate failures (one per structural key)
     for sig, (k2, case, out) in sorted(fails.items()):
+        if ctx.violations >= 40:
+            break           # enough concrete failing inputs; the remaining distinct keys are counted in the evidence
         reported += bool(ctx.violation(
             {"kind": "dispatch-value-mismatch", "case": {"call": case["call"], "args": case["args"], "kw": case["kw"], "dtype": case.get("dtype", "float64")},
              "observed": res_repr(out["res"]), "through_method": res_repr(out.get("method")), "dense_oracle": res_repr(out["oracle"]),
@@ -1438,7 +1517,8 @@ def correspondence(ctx, meta, rng, coq=True, width=None):
     nontriv = len(keys_seen) + len(fkeys_seen)
     dkeys = {json.dumps([c["call"], c["kinds"]]) for c in dcs}
     samples = []
-    for (case, out, fail, key) in (vouts[len(vouts) // 3], vouts[-1]):
+    passing = [x for x in vouts if not x[2]] or vouts
+    for (case, out, fail, key) in (passing[len(passing) // 3], passing[-1]):
         samples.append({"call": case["call"], "args": case["args"], "kw": case["kw"], "observed": res_repr(out["res"]),
                         "dispatched": list(out["disp"]), "key": key})
     stats.update({
@@ -1483,6 +1563,7 @@ def replay(rp):
         print("replay file has no executable case:", json.dumps(rp)[:600])
         return 1
     lib.install()
+    install_tf_probe(lib)
     try:
         class Dummy:
             pass
@@ -1491,6 +1572,7 @@ def replay(rp):
         else:
             out, fail = check_value_case(Dummy(), lib, real, case)
     finally:
+        uninstall_tf_probe(lib)
         lib.uninstall()
     print("call      :", case["call"], case.get("kw"))
     print("dispatched:", out["disp"])
